@@ -220,6 +220,9 @@ func runC10(w *World) *Result {
 		if b, err := BuildBackend(w, role); err == nil {
 			FrameRule(w, b, r, "R-C10-frame")
 		}
+		// the function stack decides which names are written as locals of a function: an entry that is
+		// not removed when the function ends puts top-level names into the last function's name space
+		PopRule(w, role, r, "R-C10-frame", "FuncStart")
 	}
 	identRe, kw, err := LexerIdentifierLanguage(w)
 	if err != nil {
